@@ -206,7 +206,7 @@ void DiffVisitor::bvisit(const Constant &self)
 
 void DiffVisitor::bvisit(const Symbol &self)
 {
-    if (x->get_name() == self.get_name()) {
+    if (eq(*x, self)) {
         result_ = one;
     } else {
         result_ = zero;
